@@ -64,6 +64,8 @@ Failing(e) ==
              IF ~e.target_ok THEN "C11_DefaultNames"
              ELSE IF ConvOK(e) THEN "none" ELSE IF e.inv THEN "C11_ConvertNegates" ELSE "C11_ConvertPreserves"
       [] e.name = "refuse" -> IF RefuseOK(e) THEN "none" ELSE "C11_NoClobber"
+      \* the array that the read returned, inspected again after the later calls, still holds what it held
+      [] e.name = "reinspect" -> IF e.unchanged THEN "none" ELSE "C11_RoundTrip"
 
 TraceInit == /\ tid \in 1..Len(Traces)
              /\ l = 1
